@@ -185,6 +185,14 @@ Theorem C05_undemanded_fault_invisible : forall S D sc g d i q,
   d <= i -> run S D sc g (demand d i q) = RVal /\ class S D sc (demand d i q) = CVal /\ class S D sc (PTry (demand d i q)) = CVal.
 Proof. exact undemanded_fault_invisible. Qed.
 
+(* data whose depth grows with the steps of an ordinary loop: harmless while the observers' recursion is bounded
+   (flattened chains: n <= 10), fatal at some finite number of steps when it is not (known findings deep-data/...) *)
+Theorem C05_bounded_data_depth_survives : forall S D n frame, n * frame <= D -> fault_raw S D (FDeepData n frame) = RVal.
+Proof. exact deep_data_bounded_survives. Qed.
+
+Theorem C05_unbounded_data_depth_refuted : forall S D frame, 1 <= frame -> fault_raw S D (FDeepData (D + 1) frame) = RFatal.
+Proof. exact deep_data_unbounded_fatal. Qed.
+
 (* non-vacuity: a host panic in a forced-parallel map below a try is caught; a program with all context kinds is safe *)
 Example C05_nonvacuous :
   class code_sites 1000 all_par (PTry (PStage 0 (PCall (PLeaf FHostPanic)))) = CCatch /\
@@ -254,6 +262,8 @@ Print Assumptions C05_recursion_through_method_is_an_error.
 Print Assumptions C05_mixed_recursion_is_an_error.
 Print Assumptions C05_mixed_recursion_fresh_method_refuted.
 Print Assumptions C05_below_inherits_depth.
+Print Assumptions C05_bounded_data_depth_survives.
+Print Assumptions C05_unbounded_data_depth_refuted.
 Print Assumptions C05_demanded_fault_is_error.
 Print Assumptions C05_undemanded_fault_invisible.
 Print Assumptions C05_push_guards_depth.
